@@ -25,12 +25,12 @@ def gen(run):
     n = 200 if run.tier == 'quick' else 8000
     cases = common.corpus('C12')
     for _ in range(n):
-        kind = rng.choice(['sync', 'async', 'async'])
+        kind = rng.choice(['sync', 'async', 'async']) + rng.choice(['', '', 'root'])     # ...root: the logger configured under the reserved name, written to through the handle of that name
         pol = rng.choice(['Block', 'Discard', 'DiscardOldest'])
         nrefs = rng.randint(1, 4)
         refs = ','.join(hx(c01.level_str(rng, valid=rng.random() > 0.02)) for _ in range(nrefs))
         ops = []
-        if kind == 'async' and rng.random() < 0.7:
+        if kind.startswith('async') and rng.random() < 0.7:
             ops.append('g')                    # the worker is parked while the caller keeps recycling its buffer
         for _ in range(rng.randint(1, 10)):
             ops.append('s' + hx(payload(rng)).replace('-', ''))
@@ -71,9 +71,9 @@ def check(run):
     cases = gen(run)
 
     def nontrivial(c, obs):
-        return obs != 'err' and c.split()[0] == 'async' and ' g ' in c or len(c.split()[2].split(',')) > 1
+        return obs != 'err' and c.split()[0].startswith('async') and ' g ' in c or len(c.split()[2].split(',')) > 1
     common.simple_family_check(run, 'c12', 'c12/recycled-buffer', cases, nontrivial,
-        'sync/async Refresh-built loggers with 1-4 recording appenders (every reference level setting of C01, incl. ranges that exclude everything), a caller that recycles ONE buffer across writes '
+        'sync/async Refresh-built loggers (under an ordinary name or configured as the root logger and written to through the root handle) with 1-4 recording appenders (every reference level setting of C01, incl. ranges that exclude everything), a caller that recycles ONE buffer across writes '
         '(empty, binary with NUL and invalid UTF-8, multi-line, up to 5 KB, and large ones of 64 KiB +-1 .. 200 KB), the async worker parked while the buffer is overwritten; observable: returned lengths, handle identity, '
         'the byte strings every appender received, in order; non-trivial = several appenders, or an async logger with the worker parked', keep_empty=False)
     # concurrent writers
@@ -81,7 +81,7 @@ def check(run):
     try:
         cc = []
         for _ in range(12 if run.tier == 'quick' else 300):
-            cc.append('%s %s %s c%d.%d' % (rng.choice(['sync', 'async']), 'Block', ','.join(hx(c01.level_str(rng)) for _ in range(rng.randint(1, 3))), rng.choice([1, 2, 4, 8]), rng.choice([20, 200])))
+            cc.append('%s %s %s c%d.%d' % (rng.choice(['sync', 'async', 'syncroot', 'asyncroot']), 'Block', ','.join(hx(c01.level_str(rng)) for _ in range(rng.randint(1, 3))), rng.choice([1, 2, 4, 8]), rng.choice([20, 200])))
         common.write_lines(tmp + '/c', cc)
         rc, li = common.run_impl('c12', tmp + '/c', tmp + '/i', timeout=1200)
         io = common.read_lines(tmp + '/i')
